@@ -203,6 +203,7 @@ type World struct {
 	roots          map[string]int
 	extraStores    []iface.Store
 	lastSnapOK     bool // the last `snapsave` succeeded
+	maxHist        *int // `maxhist=N`: every store of the scenario is built with MaxHistory = N
 	heldHooks      map[string]chan struct{}
 	hookWaiting    map[string]int
 	lastForged     string
@@ -288,6 +289,7 @@ func (w *World) startInstance(p *Peer) error {
 		return err
 	}
 	p.odb = odb
+	w.registerStoreTypes(p)
 	return nil
 }
 
